@@ -324,6 +324,63 @@ def run(index, rep, tier):
                                           % (fi.qualname, FLAG, norm(v) if v is not None else "?"))
         rep.floor("R04.9", "bindings of the flag examined", 1, n9)
 
+    # ---- R04.10 missing bipartitions are those of the FIRST tree; the freshness flag defaults to False
+    with rep.section("R04.10"):
+        rep.rule("R04.10", "(a) find_missing_bipartitions returns the bipartitions of its first argument (the reference tree) that the second lacks - whether written as a filtering loop, a comprehension or a set difference, the collection walked / the minuend derives from the first tree parameter and the one tested against / the subtrahend from the second; (b) every function of the library that takes is_bipartitions_updated declares it with the default False - with True a call with default arguments answers from whatever encoding was cached before the tree was last modified")
+        fm = index.function(TC + ".find_missing_bipartitions")
+        t1, t2 = tree_params(fm)[:2]
+        tags = {}
+        for st in walk_no_nested(fm.node):
+            if isinstance(st, ast.Assign) and len(st.targets) == 1 and isinstance(st.targets[0], ast.Name):
+                for x in ast.walk(st.value):
+                    if isinstance(x, ast.Attribute) and x.attr == "bipartition_encoding" and norm(x.value) in (t1, t2):
+                        tags[st.targets[0].id] = norm(x.value)
+
+        def tag(e):
+            for x in ast.walk(e):
+                if isinstance(x, ast.Attribute) and x.attr == "bipartition_encoding" and norm(x.value) in (t1, t2):
+                    return norm(x.value)
+                if isinstance(x, ast.Name) and x.id in tags:
+                    return tags[x.id]
+            return None
+        orient = None
+        # filtering loop
+        for lp in walk_no_nested(fm.node):
+            if isinstance(lp, ast.For) and tag(lp.iter):
+                tests = [x for x in ast.walk(lp) if isinstance(x, ast.Compare) and len(x.ops) == 1 and isinstance(x.ops[0], (ast.In, ast.NotIn)) and tag(x.comparators[0])]
+                if tests:
+                    orient = (tag(lp.iter), tag(tests[0].comparators[0]))
+        for r in walk_no_nested(fm.node):
+            if isinstance(r, ast.Return) and r.value is not None and orient is None:
+                for x in ast.walk(r.value):
+                    if isinstance(x, ast.Call) and call_name(x) == "difference" and isinstance(x.func, ast.Attribute) and x.args:
+                        orient = (tag(x.func.value), tag(x.args[0]))
+                    elif isinstance(x, ast.BinOp) and isinstance(x.op, ast.Sub):
+                        orient = (tag(x.left), tag(x.right))
+                    elif isinstance(x, (ast.ListComp, ast.SetComp, ast.GeneratorExp)) and x.generators and tag(x.generators[0].iter):
+                        tests = [y for g_ in x.generators for i_ in g_.ifs for y in ast.walk(i_) if isinstance(y, ast.Compare) and isinstance(y.ops[0], (ast.In, ast.NotIn)) and tag(y.comparators[0])]
+                        if tests:
+                            orient = (tag(x.generators[0].iter), tag(tests[0].comparators[0]))
+        if orient is None or None in orient:
+            raise AnalysisError("R04.10: how find_missing_bipartitions builds its result was not recognised")
+        rep.check(orient == (t1, t2), "R04.10", fm.qualname, "difference taken the wrong way round: %s minus %s" % orient, fn_where(fm), "find_missing_bipartitions returns enc(%s) minus enc(%s)" % (t1, t2),
+                  "treecompare.find_missing_bipartitions returns the bipartitions of `%s` that `%s` lacks - it is documented (and used by Tree.find_missing_splits) as the bipartitions of the FIRST tree that are not in the second: the false negatives come back as false positives" % orient)
+        nflag = 0
+        for m in sorted(index.modules):
+            if not m.startswith("dendropy.") or ".test" in m or ".legacy" in m:
+                continue
+            for fi in index.functions_in_module(m):
+                a = fi.node.args
+                pos = a.posonlyargs + a.args
+                defaults = dict(zip([x.arg for x in pos][len(pos) - len(a.defaults):], a.defaults))
+                defaults.update({k.arg: v for k, v in zip(a.kwonlyargs, a.kw_defaults) if v is not None})
+                if FLAG in [x.arg for x in pos + a.kwonlyargs]:
+                    nflag += 1
+                    d = defaults.get(FLAG)
+                    rep.check(d is not None and isinstance(d, ast.Constant) and d.value is False, "R04.10", fi.qualname, "%s defaults to %s" % (FLAG, norm(d) if d is not None else "nothing"), fn_where(fi), "%s: %s=False" % (fi.name, FLAG),
+                              "%s declares `%s=%s`: with default arguments the function then trusts whatever bipartition encoding the trees carry, so after a tree was modified (default update_bipartitions=False everywhere) the answer describes the tree as it was before" % (fi.qualname, FLAG, norm(d) if d is not None else "<required>"))
+        rep.floor("R04.10", "functions taking the freshness flag", 20, nflag)
+
 
 def _length_symmetry(rep, fi):
     """Classify None handling of edge lengths per tree within each loop."""
